@@ -66,6 +66,9 @@ def scope_programs(draw, tier, fail=2, volatile=2, until=3, late_spawn=2, priv=1
                 targets.append(cn)
                 out.append({'op': 'spawn_into', 'ref': ref,
                             'child': {'name': cn, 'steps': [sl() for _ in range(draw(st.integers(0, 2)))]}})
+                if draw(st.integers(0, 2)) == 0:
+                    # ... and is cancelled by its creator at once, before its first turn
+                    out.append({'op': 'cancel', 'ref': cn, 'token': [5]})
             elif r < 16 and scope_chain and w(late_spawn * 3):
                 out.append({'op': 'await_scope', 'ref': scope_chain[-1]})
                 # graceful shutdown work, possibly spawning a sibling during shutdown
